@@ -16,7 +16,7 @@ import obs
 MARK = {"ovni": {"mark": {"9": {"title": "sort id", "chan_type": "single"}}}}
 
 
-def gen_stream(rng, tid, scope, before_start=None):
+def gen_stream(rng, tid, scope, before_start=None, shift=0):
     """Returns (events, n_lookback, info).  Events: list of
     [clock, mcv, payload(bytes), jumbo].  Every event carries a unique id
     so that any permutation is visible."""
@@ -110,6 +110,10 @@ def gen_stream(rng, tid, scope, before_start=None):
             k = j
         k += 1
     info["need"] = need
+    if shift:
+        for e in evs:
+            e[0] += shift
+        info["crosses_2^63"] = True
     return evs, info
 
 
@@ -129,11 +133,13 @@ def run_case(i):
     rng = chk.rng(i)
     scope = "fail" if i % 6 == 5 else "ok"
     nstreams = rng.randint(1, 3)
+    # clocks are unsigned 64-bit numbers: in one case in ten the streams cross 2^63
+    shift = (2 ** 63 - rng.choice([1100, 1500, 4000])) if rng.random() < 0.1 else 0
     streams = []
     need = 0
     for s in range(nstreams):
         # a later stream of the trace quite often starts with a region that belongs before its first event
-        evs, info = gen_stream(rng, 300 + s, scope if s == 0 else "ok", before_start=(rng.random() < 0.4) if s else None)
+        evs, info = gen_stream(rng, 300 + s, scope if s == 0 else "ok", before_start=(rng.random() < 0.4) if s else None, shift=shift)
         streams.append((300 + s, evs, info))
         need = max(need, info["need"])
     if scope == "ok":
@@ -230,6 +236,10 @@ def run_case(i):
         rc_ = emu.run_tool(build, "ovnisort", ["-c", wd], timeout=60, env=env)
         if rc_.rc != 0 or rc_.sig:
             out["viol"] = ("check-mode-fails", "ovnisort -c rc=%s after sorting: %s" % (rc_.rc, rc_.err[-200:]), rc_.brief()); return out
+        if shift:
+            # the emulator's clock arithmetic is signed: a trace that crosses 2^63 ns
+            # (292 years) is outside what it replays; ovnisort's own result is judged
+            return out
         re_ = emu.emu(_CTX["plain"], wd, ["-l"], timeout=60)
         if not emu.accepted(re_):
             out["viol"] = ("emulator-rejects-sorted", "ovniemu -l rejects the sorted trace: " + emu.last_error(re_), re_.brief())
